@@ -23,6 +23,13 @@ WHAT = {
     "withoutHeaders-pattern-accepts-empty-and-header-absent":
         "withoutHeaders entry whose value pattern accepts the empty string: a request WITHOUT that header should satisfy the "
         "block (API: 'opposite meaning' of headers) but the generated matcher (invert_match + treat_missing_header_as_empty) rejects it",
+    "alt-host-sound":
+        "generateVirtualHostDomains emits an alternate host that is not a DNS abbreviation of the service hostname from the proxy's "
+        "domain (e.g. the empty string for a service above the proxy domain)",
+    "domains-unique": "a lower-cased domain occurs in two virtual hosts after dedupeDomains",
+    "select-exact": "an authority equal to a kept domain does not select the virtual host owning that domain",
+    "sortvhost-sound": "SortVHostRoutes changed the decision for a request satisfying the sortSafe side condition",
+    "catchall-sound": "a route IsCatchAllRoute accepts does not match a request",
     "redirect-code-unsupported":
         "a validated VirtualService with a redirect code ApplyRedirect does not support yields a route without action",
 }
